@@ -9,12 +9,12 @@ open Lean EinoV EinoV.Engine EinoV.C04 EinoV.C19
 /-- case: {"g": graph, "input": text, "inChunks": [...]} → the preconditions of C19 evaluated
     on the model's stream-mode run: {"ok", "dropped", "noConsumer", "surplus"} -/
 def handleGraph (c : Json) : JE Json := do
-  let (_, gs) ← C04.parseBoth lazyOps (← J.field c "g")
+  let (_, gs) ← C04.parseBoth (lazyOps C04.flatZero) (← J.field c "g")
   let x ← J.str c "input"
   let pat := (J.arrD c "inChunks").filterMap (fun v => v.getNat?.toOption)
   let rs := compile GraphCase.defaultStepSlack gs
   let xs : C04.SV := .ofList (flatChunk pat [("in", x)])
-  let info := analyze lazyOps rs xs
+  let info := analyze (lazyOps C04.flatZero) rs xs
   let noConsumer := info.tasks.filterMap (fun t => if t.2.1 + t.2.2.2 == 0 then some t.1 else none)
   let surplus := info.tasks.filterMap (fun t => if t.2.2.1 > t.2.2.2 then some t.1 else none)
   let ledgerLeak := (info.tasks.map (fun t => (distribute false false t.2.1 t.2.2.1 t.2.2.2 0).leaked)).sum
